@@ -4,9 +4,11 @@ Session.tla (TLC): DeliverOnlyCurrent, SkipKeepsWaiting, UndecodableEndsCall, La
 interleaving of sends, receive-loop iterations and injections of the curated fault alphabet.  The same model
 exports every completed behaviour as a script; each is replayed on the real raw sockets (every version /
 security level), and TraceSession.tla - decoding the logged octets itself - computes the outcome every recv
-call had to have from the ids actually seen on the wire."""
+call had to have from the ids actually seen on the wire.  The behaviours are replayed a second time through the
+public API (sync and async SnmpSession.get / get_many against an agent that answers request k with the datagrams
+the behaviour injects), so that the clients' own receive loops are judged by the same trace specification."""
 import json
-from vlib import env, tlc, sesscheck, scripts
+from vlib import env, tlc, sesscheck, scripts, apiscripts, trace
 from vlib.report import Check
 from vlib.env import ToolError, SEED
 
@@ -37,6 +39,7 @@ def run(tier):
         chk.add_tlc(res, "MC_Session %s" % cn)
     # spec -> impl -> spec
     items = []
+    exported = {}
     std = scripts.std_cfgs()
     for ci, cn in enumerate(cfgs):
         deep = thorough and cn in ("v1", "v2c", "v3-md5", "v3-sha1-aes")       # three injections: 40k-110k behaviours per configuration
@@ -46,6 +49,7 @@ def run(tier):
             scr3, res3 = sesscheck.export_scripts(cn, 3, 2, 2)
             chk.add_tlc(res3, "export3 %s" % cn)
             scr = scr + scr3
+        exported[cn] = scr
         if not thorough and cn not in ("v2c", "v3-md5"):
             scr = [s for si, s in enumerate(scr) if (si + SEED) % 5 == 0]       # quick: sample the other configurations
         for si, s in enumerate(scr):
@@ -56,6 +60,7 @@ def run(tier):
         sig = signature(f)
         chk.violation(sig, "config %s: %s on consumed=[%s] model=%s got=%s" % (f["cfgname"], sig["ev"], sig["consumed"], sig["model"], sig["got"]),
                       dict(cfgname=f["cfgname"], script=f["script"], failing_event=f["event"]))
+    api_part(chk, thorough, exported)
     chk.sample(dict(kind="script", cfg=items[len(items) // 2][0], script=items[len(items) // 2][2]))
     chk.sample(dict(kind="trace-events", events=rec.events[1:4]))
     chk.assumptions += ["loopback UDP preserves order and does not drop (single-threaded stepping)",
@@ -63,9 +68,84 @@ def run(tier):
     return chk.finish()
 
 
+def api_items(exported, thorough):
+    std = scripts.std_cfgs()
+    items = []
+    for ci, cn in enumerate(["v2c", "v3-md5", "v1", "v3-sha1-aes", "v3-noauth"]):
+        if cn not in exported:
+            continue
+        plans = apiscripts.plans_of(exported[cn])
+        for pi, plan in enumerate(plans):
+            if not thorough and (pi + ci + SEED) % (14 if cn in ("v2c", "v3-md5") else 40):
+                continue
+            items.append((["sync", "async"][(pi + ci) % 2] if not thorough else "sync", cn, std[cn], plan, (pi + ci + SEED) % 28))
+            if thorough:
+                items.append(("async", cn, std[cn], plan, (pi + ci + SEED) % 28))
+    return items
+
+
+def api_judge(items, name):
+    rec = trace.Recorder(name)
+    runs = apiscripts.run_all(rec, items)
+    rec.close()
+    v = trace.validate_parallel("TraceSession.tla", "TraceSession.cfg", rec.events, [(a, b) for a, b, _ in runs], k=10, name=name)
+    failed = []
+    ri = 0
+    for idx in v["fails"]:
+        while runs[ri][1] <= idx:
+            ri += 1
+        failed.append((ri, idx, rec.events[idx]))
+    return rec, runs, v, failed
+
+
+def api_part(chk, thorough, exported):
+    """the same behaviours through SnmpSession.get()/get_many() of the sync and async clients (their own receive loops)"""
+    items = api_items(exported, thorough)
+    rec, runs, v, failed = api_judge(items, "c04api")
+    for i, r in enumerate(v["results"]):
+        chk.add_tlc(r, "TraceSession(c04api)#%d" % i)
+    chk.traces += len(runs)
+    for a, b, info in runs:
+        chk.case(("api", info["client"], info["cfgname"], json.dumps(info["plan"], sort_keys=True)))
+    print("  api: %d behaviours through the sync/async clients, %d events, %d first-pass failures" % (len(runs), rec.n, len(failed)), flush=True)
+    seen = set()
+    for ri, idx, ev in failed:
+        if ri in seen:
+            continue
+        seen.add(ri)
+        # real sockets + real time (200 ms timeout): a failure is reported only if the same behaviour fails three times in a row
+        confirmed = True
+        for _ in range(2):
+            _, _, _, f2 = api_judge([items[ri]], "c04api-confirm")
+            if not f2:
+                confirmed = False
+                break
+        if not confirmed:
+            chk.extra.setdefault("unconfirmed_api_failures", 0)
+            chk.extra["unconfirmed_api_failures"] += 1
+            continue
+        info = runs[ri][2]
+        got = ev.get("exc") or ("value" if ev.get("ev") == "Recv" else "sent")
+        sig = dict(kind="api", client=info["client"], ver="v3" if info["cfgname"].startswith("v3") else info["cfgname"], ev=ev.get("ev"), got=got,
+                   injected="|".join(scripts.mutant_name(items[ri][2], d) for p in info["plan"] for d in p))
+        chk.violation(sig, "%s client, config %s: %s ended with %s after the agent sent [%s]" % (info["client"], info["cfgname"], ev.get("op") or ev.get("ev"), got, sig["injected"]),
+                      dict(kind="api", client=info["client"], cfgname=info["cfgname"], plan=info["plan"], variant=info["variant"], failing_event=ev))
+
+
 def replay(path):
     d = json.load(open(path))
     r = d["replay"]
+    if r.get("kind") == "api":
+        std = scripts.std_cfgs()
+        bad = 0
+        for _ in range(3):
+            _, _, _, f = api_judge([(r["client"], r["cfgname"], std[r["cfgname"]], r["plan"], r["variant"])], "c04api-replay")
+            bad += 1 if f else 0
+        if bad == 3:
+            print("VIOLATION property=C04 replay=%s" % path)
+            return 1
+        print("replay: accepted")
+        return 0
     chk = Check("C04", "quick")
     chk.states = chk.transitions = 1
     std = scripts.std_cfgs()
